@@ -68,6 +68,9 @@ def kd_py_aliased(kd):
     for s in K.states():
         key = frozenset(K.labels(s))
         L[s] = groups.setdefault(key, set(key))
+    if len(groups) % 2 == 0:
+        # the caller's dict may also carry entries for objects that are not states (e.g. one design-wide labelling dict)
+        L[10 ** 6 + 7] = set(a for ls in L.values() for a in ls) | {'p', 'q'}
     K.replace_labelling_function(L)
     return K
 
